@@ -88,6 +88,25 @@ def check(repo: Repo, rep: Report) -> None:
         TC.rule_scheduler_forwarded(rep, "F0-scheduler-forwarded", repo.fn(rel_, q_))
     TC.rule_fanout_loops(rep, "G3-terminal-fan-out", root)
     TC.rule_no_mutation_while_iterating(rep, "G3-terminal-fan-out", root)
+    # a failing user callback (key / element / subject / duration mapper) ends every open group with that error before the
+    # subscriber gets it: each handler that reports `e` downstream first fans it out over the group map
+    par_ = root.module.parents
+    for g_ in root.walk():
+        if not g_.is_func:
+            continue
+        for nd in g_.direct_nodes():
+            if not isinstance(nd, ast.ExceptHandler) or not nd.name:
+                continue
+            down = [c for st in nd.body for c in ast.walk(st) if isinstance(c, ast.Call) and u(c.func) == f"{root.params[0]}.on_error" and c.args and u(c.args[0]) == nd.name]
+            if not down:
+                continue
+            loops_ = [st for st in nd.body if isinstance(st, ast.For) and any(isinstance(x, ast.Name) and x.id == writers for x in ast.walk(st.iter))
+                      and any(isinstance(c, ast.Call) and isinstance(c.func, ast.Attribute) and c.func.attr == "on_error" and u(c.func.value) == u(st.target)
+                              and c.args and u(c.args[0]) == nd.name for b_ in st.body for c in ast.walk(b_))]
+            okh = len(loops_) == 1 and loops_[0].lineno < down[0].lineno
+            rep.ob("G3-terminal-fan-out", g_, f"{g_.qual}: `except ... as {nd.name}` around `{short(par_.get(nd).body[0], 30) if par_.get(nd) is not None else '?'}`: every open group gets the error, then the subscriber", okh,
+                   f"{g_.qual}: a failing user callback is reported to the subscriber without first ending every open group with the same error: "
+                   f"subscribers of the open groups never terminate")
     # the fan-out iterates a snapshot of the group map: ending a group can expire it synchronously (a duration derived from
     # the group itself) and `expire` deletes from the map
     for g_ in root.walk():
